@@ -71,7 +71,7 @@ class Clock:
     def advance(self, secs):
         if secs:
             self.now += secs
-            self.tr.move_to(dt.datetime.fromtimestamp(self.now, UTC))
+            self.tr.move_to(float(self.now))
 
 
 async def run_history(rep, case, sub):
@@ -82,7 +82,9 @@ async def run_history(rep, case, sub):
         await cl.connect()
     results = []   # (client index, op, frames, times, t_call, status, res)
     try:
-        with time_machine.travel(dt.datetime.fromtimestamp(case["t0"], UTC), tick=False) as tr:
+        from .. import vclock
+        zone = vclock.zone(case.get("zone", "UTC"))
+        with time_machine.travel(dt.datetime.fromtimestamp(case["t0"], zone), tick=False) as tr:
             clock = Clock(tr, case["t0"])
 
             async def one(ci, op, idx):
@@ -181,7 +183,8 @@ def cases_pairs():
             sess = bytes([(n * 7 + i * 13 + 1) % 256, (n >> 3) % 256, 0x5A ^ i, (n * 3 + i) % 256]).hex()
             oplist.append({"client": 0 if ops.api_type(k) == 1 else 1, "kind": k, "args": CANON_ARGS[k], "session": sess,
                            "gap": (n + 2 * i) % 4, "salt": 1 + i})
-        out.append({"clients": CLIENTS2, "t0": 1_700_000_000 + n * 1000, "ops": oplist})
+        out.append({"clients": CLIENTS2, "t0": 1_700_000_000 + n * 1000, "ops": oplist,
+                    "zone": ["UTC", "Asia/Jerusalem", "America/New_York"][n % 3]})
     return out
 
 
@@ -209,12 +212,15 @@ def client_cfgs(types):
         lambda t: [{"type": ty, "device_id": d, "key": k} for ty, (d, k) in zip(types, t)])
 
 
+HOST_ZONES = st.sampled_from(["UTC", "UTC", "Asia/Jerusalem", "America/New_York", "Asia/Kathmandu", "Pacific/Kiritimati"])
+
+
 def strat_seq():
     return st.builds(
-        lambda cfg, oplist, t0: {"clients": cfg, "t0": t0, "ops": oplist},
+        lambda cfg, oplist, t0, z: {"clients": cfg, "t0": t0, "ops": oplist, "zone": z},
         client_cfgs([1, 2]),
         st.lists(op_strategy(ops.KINDS, lambda k: 0 if ops.api_type(k) == 1 else 1), min_size=3, max_size=20),
-        st.integers(300_000, 2 ** 32 - 400_000))
+        st.integers(300_000, 2 ** 32 - 400_000), HOST_ZONES)
 
 
 def strat_interleaved():
@@ -222,8 +228,8 @@ def strat_interleaved():
         kinds_of = {1: ops.KINDS1, 2: ops.KINDS2}
         a = st.lists(op_strategy(kinds_of[types[0]], lambda k: 0), min_size=1, max_size=4)
         b = st.lists(op_strategy(kinds_of[types[1]], lambda k: 1), min_size=1, max_size=4)
-        return st.builds(lambda cfg, la, lb, t0: {"clients": cfg, "t0": t0, "ops": la + lb, "concurrent": True},
-                         client_cfgs(list(types)), a, b, st.integers(300_000, 2 ** 32 - 400_000))
+        return st.builds(lambda cfg, la, lb, t0, z: {"clients": cfg, "t0": t0, "ops": la + lb, "concurrent": True, "zone": z},
+                         client_cfgs(list(types)), a, b, st.integers(300_000, 2 ** 32 - 400_000), HOST_ZONES)
     return st.sampled_from([(1, 1), (2, 2), (1, 2)]).flatmap(for_types)
 
 
